@@ -324,3 +324,99 @@ def prop_csc(c):
     if frame_check(want, b"0123456789abcdef\x05", ct):
         return "FAIL security-code container is not keyed with SHA-256(code)[:16]: " + frame_check(want, b"0123456789abcdef\x05", ct)
     return "ok"
+
+
+@op("prop.c04bec2")
+def prop_c04bec2(k, bs, cs, es, ephs, what, stride, offset):
+    key, comps = unhx(k), b3.parse_comps(cs)
+    with Oracle(parse_nats(ephs)):
+        f0 = Bec2File(Bf3File({}, b3.parse_comps(cs)), parse_blocks(bs), key)
+        binary = f0.to_binary(parse_encs(es))
+    encs = parse_encs(es)
+
+    def read(t):
+        return Bec2File.read_file(io.StringIO(t), encs, True)
+
+    def known(f):
+        return [show_block(b) for b in f.auth_blocks.values() if not isinstance(b, UnknownAuthBlock)]
+
+    try:
+        base = read(b3.to_text(binary))
+    except Exception as e:
+        return "ok 0 undamaged-file-not-readable-with-these-decryptors " + type(e).__name__
+    blocks0 = known(base)
+
+    def same(f, text_prefix=False):
+        if f.session_key != key:
+            return f"session key {f.session_key.hex()} instead of {key.hex()}"
+        d = b3.same_file(f.bf3file, f.bf3file.comments if text_prefix else {}, base.bf3file.components)
+        if d:
+            return d
+        # blocks the reader could open must be the original ones; opaque (undecryptable) blocks carry no
+        # authenticated content and are outside 'content'
+        kf = known(f)
+        if kf != blocks0:
+            it = iter(blocks0)
+            if all(any(x == y for y in it) for x in kf):
+                # header tag/length bytes are not authenticated: an opened block can be turned into an opaque one
+                return (f"KNOWN:HEADER-DOWNGRADE opened auth blocks {kf} are a proper sub-list of the original "
+                        f"{blocks0} (session key and components unchanged)")
+            return f"decrypted auth blocks {kf} instead of {blocks0}"
+        return None
+
+    n, bad = b3.damage_scan(read, binary, lambda b: b3.to_text(b), {}, same, what, int(stride), int(offset))
+    if bad and bad.startswith("KNOWN:"):
+        return "FAIL-KNOWN " + bad[6:]
+    return ("FAIL " + bad) if bad else f"ok {n}"
+
+
+def _expected_comps(comps):
+    """what reading returns for the written components: encrypted ones come back zero-padded"""
+    out = []
+    for c in comps:
+        if c.encrypt_by_session_key and c.description.get(0xC2) == b"\x02":
+            blob = c.blob + bytes(-len(c.blob) % 16)
+            c2 = b3.Bf3Component(dict(c.description), blob, None, True)
+            c2.actual_len = c.actual_len
+            out.append(c2)
+        else:
+            out.append(c)
+    return out
+
+
+import layout
+
+
+@op("prop.c03bec2")
+def prop_c03bec2(k, bs, cs, es, ephs):
+    """BEC2 framing: signature, TLV auth blocks closed by 00 00, body laid out at offset = header length"""
+    key, comps = unhx(k), b3.parse_comps(cs)
+    try:
+        with Oracle(parse_nats(ephs)):
+            f0 = Bec2File(Bf3File({}, b3.parse_comps(cs)), parse_blocks(bs), key)
+            out = f0.to_binary(parse_encs(es))
+    except Exception as e:
+        return "ok writer-rejects " + type(e).__name__
+    if out[:5] != b"BEC2\x00":
+        return "FAIL signature"
+    o, tags = 5, []
+    while True:
+        if o + 2 > len(out):
+            return "FAIL header TLV list is not closed by 00 00"
+        t, ln = out[o], out[o + 1]
+        o += 2
+        if t == 0 and ln == 0:
+            break
+        tags.append(t)
+        o += ln
+    want_tags = [b.tag for b in f0.auth_blocks.values()]
+    if tags != want_tags:
+        return f"FAIL header block tags {tags} != {want_tags}"
+    spec = []
+    for c in comps:
+        raw = refaes.cbc_encrypt(key, bytes(16), refaes.zero_pad(c.blob)) if c.encrypt_by_session_key else c.blob
+        spec.append((list(c.description.items()), raw, c.actual_len))
+    want = layout.serialize(key, o, spec)
+    if out[o:] != want:
+        return f"FAIL body after the {o}-byte header differs from the documented layout at offset {o}"
+    return "ok"
